@@ -66,12 +66,10 @@ package path
 
 //@ func (*HopField).SerializeTo
 //@   props C18 C07
-//@   modifies b[:]
+//@   modifies arr(b)
 //@   ensures (err == nil) == (len(b) >= 12)
-//@   ensures err == nil ==> b[0] == ite(h.EgressRouterAlert, 1, 0)|ite(h.IngressRouterAlert, 2, 0) && b[1] == h.ExpTime
-//@   ensures err == nil ==> b[2] == uint8(h.ConsIngress>>8) && b[3] == uint8(h.ConsIngress) && b[4] == uint8(h.ConsEgress>>8) && b[5] == uint8(h.ConsEgress)
-//@   ensures err == nil ==> forall i int :: 0 <= i && i < 6 ==> b[6+i] == h.Mac[i]
-//@   ensures forall i int :: 12 <= i && i < len(b) ==> b[i] == old(b[i])
+//@   ensures err == nil ==> arrUpd(b, 0, ite(h.EgressRouterAlert, 1, 0)|ite(h.IngressRouterAlert, 2, 0), h.ExpTime, uint8(h.ConsIngress>>8), uint8(h.ConsIngress), uint8(h.ConsEgress>>8), uint8(h.ConsEgress), h.Mac[0], h.Mac[1], h.Mac[2], h.Mac[3], h.Mac[4], h.Mac[5])
+//@   ensures err != nil ==> arrSame(b)
 
 //@ func (*InfoField).DecodeFromBytes
 //@   props C18 C01 C07
@@ -83,12 +81,10 @@ package path
 
 //@ func (*InfoField).SerializeTo
 //@   props C18 C07
-//@   modifies b[:]
+//@   modifies arr(b)
 //@   ensures (err == nil) == (len(b) >= 8)
-//@   ensures err == nil ==> b[0] == ite(inf.ConsDir, 1, 0)|ite(inf.Peer, 2, 0) && b[1] == 0
-//@   ensures err == nil ==> b[2] == uint8(inf.SegID>>8) && b[3] == uint8(inf.SegID)
-//@   ensures err == nil ==> b[4] == uint8(inf.Timestamp>>24) && b[5] == uint8(inf.Timestamp>>16) && b[6] == uint8(inf.Timestamp>>8) && b[7] == uint8(inf.Timestamp)
-//@   ensures forall i int :: 8 <= i && i < len(b) ==> b[i] == old(b[i])
+//@   ensures err == nil ==> arrUpd(b, 0, ite(inf.ConsDir, 1, 0)|ite(inf.Peer, 2, 0), 0, uint8(inf.SegID>>8), uint8(inf.SegID), uint8(inf.Timestamp>>24), uint8(inf.Timestamp>>16), uint8(inf.Timestamp>>8), uint8(inf.Timestamp))
+//@   ensures err != nil ==> arrSame(b)
 
 //@ func (*InfoField).UpdateSegID
 //@   props C22 C01
